@@ -44,6 +44,7 @@ def run_main(argv, cwd, home):
     os.environ.pop("CMINXDIR", None)
     out = io.StringIO()
     exc = None
+    logging.disable(logging.NOTSET)
     try:
         os.chdir(cwd)
         with contextlib.redirect_stdout(out), contextlib.redirect_stderr(io.StringIO()):
